@@ -371,3 +371,250 @@ Theorem C15_no_time_filter_in_the_daemon :
              In "EventW"%string fs /\ In "Health"%string fs.
 Proof. exact audit_processor_has_no_time_filter. Qed.
 Print Assumptions C15_no_time_filter_in_the_daemon.
+
+(* ---------- go-libaudit's reassembler, translated from the pinned module ----------
+   Model/AuditProc.v's Section Reassembler ([put], [cleanup], [rstep], [lost_of], [last_of]: the oracle [rstep] of the
+   statements above) is tied to THIRD-PARTY code: reassembler.go of the module /repo/go.mod pins
+   (github.com/elastic/go-libaudit/v2, replaced by github.com/metal-toolbox/go-libaudit/v2).  tools/go2v/reassemblergen.go
+   resolves the module directory the way `go list -m` does and regenerates Gen/ReassemblerProg.v on every run: the bodies of
+   eventList.Put / CleanUp / Clear / remove, event.Add / IsExpired, sequenceNumSlice.Less, abs, Reassembler.PushMessage /
+   Maintain / Close / callback, statement by statement (IR and interpreter: Model/ReassemblerIR.v; the interpreter keeps
+   l.seqs AND l.events with a heap of event objects, as the source does).  The statements below are proved for all inputs
+   in Proofs/ReassemblerIRTie.v.  [Rep c evs ps]: the interpreter state c represents the model's buffer evs (l.seqs = its
+   numbers in its order; l.events maps exactly those numbers to pairwise distinct objects ps holding the events' content);
+   [RepSt]: the same for a whole model state with the limits; [abs_state] builds a representing state for every model state.
+
+   THE WINDOW CONDITION.  sort.Sort (reached by l.seqs.Sort()) has a defined result only when Less is a strict total order
+   on the numbers present; with the roll-over rule (|a-b| > 2^24-1 reverses the comparison) Less is NOT transitive in
+   general ([C15_reassembler_from_source_less_not_transitive]).  It is
+     - the plain order [<] on any set of numbers pairwise closer than 2^24 ([in_window]): there the generated program
+       is the plain-order model the theorems of this file speak about;
+     - a strict total order on two such clusters lying further apart than 2^24-1 ([two_clusters], e.g. either side of
+       the 2^32 wrap): there the generated program is the ORDER-GENERIC model [put_by seq_less] / [rstep_by seq_less]
+       (Model/AuditProc.v, Section ReassemblerBy; [put_by N.ltb = put]), the upper cluster sorting first. *)
+From AM Require Import Model.ReassemblerIR Gen.ReassemblerProg Proofs.ReassemblerIRRun Proofs.ReassemblerIRTie.
+From Coq Require Import Sorting.Sorted.
+
+Section C15_reassembler_from_source.
+  Variable msg : Type.
+  Variable mseq : msg -> N.          (* AuditMessage.Sequence, a uint32 *)
+  Variable mtype : msg -> nat.       (* AuditMessage.RecordType *)
+
+  (* sequenceNumSlice.Less (+ abs, maxSortRange), as sort.Sort consults it, is the model's [seq_less] *)
+  Theorem C15_reassembler_from_source_less : forall (c : cst msg) a b,
+    less_of msg (callee msg mseq mtype gen_reassembler 3) c a b = Some (seq_less a b).
+  Proof. exact (less_from_source msg mseq mtype). Qed.
+
+  (* eventList.Put (+ event.Add, the sort) = the plain-order [put], inside a window *)
+  Theorem C15_reassembler_from_source_put : forall d (c : cst msg) evs ps m,
+    Rep msg c evs ps -> c_locked c = false -> (mseq m < two32)%N ->
+    StronglySorted N.lt (map e_seq evs) -> in_window (mseq m :: map e_seq evs) ->
+    exists c' ps',
+      callee msg mseq mtype gen_reassembler (4 + d) FnPut (Some VListObj) [VMsg (Some m)] c = Some (c', []) /\
+      Rep msg c' (put msg mseq mtype (c_timeout c) (c_now c) m evs) ps' /\ same_rest msg c c' /\ c_last c' = c_last c.
+  Proof. exact (put_from_source msg mseq mtype). Qed.
+
+  (* ... = the order-generic [put_by seq_less] whenever Less is transitive on the numbers present *)
+  Theorem C15_reassembler_from_source_put_by : forall d (c : cst msg) evs ps m,
+    Rep msg c evs ps -> c_locked c = false -> (mseq m < two32)%N ->
+    sorted_by seq_less (map e_seq evs) -> less_trans_on (mseq m :: map e_seq evs) ->
+    exists c' ps',
+      callee msg mseq mtype gen_reassembler (4 + d) FnPut (Some VListObj) [VMsg (Some m)] c = Some (c', []) /\
+      Rep msg c' (put_by msg mseq mtype seq_less (c_timeout c) (c_now c) m evs) ps' /\ same_rest msg c c' /\
+      c_last c' = c_last c.
+  Proof. exact (put_by_from_source msg mseq mtype). Qed.
+
+  (* eventList.CleanUp (+ IsExpired, remove) = [cleanup]: the evicted objects in order with their record lists, the lost
+     count [lost_of], lastSeq = [last_of]; the kept events stay represented *)
+  Theorem C15_reassembler_from_source_cleanup : forall d (c : cst msg) evs ps maxsz,
+    Rep msg c evs ps -> c_locked c = false -> c_maxsz c = Z.of_nat maxsz -> (c_last c < two32)%N ->
+    let ev := fst (cleanup msg maxsz (c_now c) evs) in
+    let kept := snd (cleanup msg maxsz (c_now c) evs) in
+    exists c' pe pk,
+      ps = pe ++ pk /\
+      callee msg mseq mtype gen_reassembler (3 + d) FnCleanUp (Some VListObj) [] c =
+        Some (c', [VEvs (map Some pe); VInt (Z.of_N (lost_of msg (c_last c) ev))]) /\
+      Rep msg c' kept pk /\ carries msg (c_heap c) pe (map e_msgs ev) /\
+      c_last c' = last_of msg (c_last c) ev /\ (c_last c' < two32)%N /\ c_heap c' = c_heap c /\ same_rest msg c c'.
+  Proof. exact (cleanup_from_source msg mseq mtype). Qed.
+
+  (* eventList.Clear = everything evicted, in order *)
+  Theorem C15_reassembler_from_source_clear : forall d (c : cst msg) evs ps,
+    Rep msg c evs ps -> c_locked c = false -> (c_last c < two32)%N ->
+    exists c',
+      callee msg mseq mtype gen_reassembler (3 + d) FnClear (Some VListObj) [] c =
+        Some (c', [VEvs (map Some ps); VInt (Z.of_N (lost_of msg (c_last c) evs))]) /\
+      Rep msg c' [] [] /\ carries msg (c_heap c) ps (map e_msgs evs) /\
+      c_last c' = last_of msg (c_last c) evs /\ (c_last c' < two32)%N /\ c_heap c' = c_heap c /\ same_rest msg c c'.
+  Proof. exact (clear_from_source msg mseq mtype). Qed.
+
+  (* PushMessage / Maintain / Close on an open reassembler = the model's [rstep] (plain order, inside a window): the new
+     state is represented, the Stream receives one ReassemblyComplete per evicted event in order and then EventsLost iff the
+     lost count is non-zero, Close sets the closed flag *)
+  Theorem C15_reassembler_from_source_rstep : forall (c : cst msg) st maxsz timeout ps o,
+    RepSt msg c st maxsz timeout ps -> c_closed c = 0%Z ->
+    StronglySorted N.lt (map e_seq (r_evs st)) -> in_window (map e_seq (r_evs st)) -> op_in_window msg mseq st o ->
+    exists c' ps',
+      run_op msg mseq mtype o c = Some (c', op_ret msg o) /\
+      RepSt msg c' (fst (fst (rstep msg mseq mtype maxsz timeout st o))) maxsz timeout ps' /\
+      c_out c' = c_out c ++ cb_out msg (snd (fst (rstep msg mseq mtype maxsz timeout st o)))
+                                       (snd (rstep msg mseq mtype maxsz timeout st o)) /\
+      c_closed c' = op_closed msg o.
+  Proof. exact (rstep_from_source msg mseq mtype). Qed.
+
+  (* the same started from the abstraction of any model state satisfying the model's invariant *)
+  Theorem C15_reassembler_from_source_rstep_abs : forall st maxsz timeout out o,
+    StronglySorted N.lt (map e_seq (r_evs st)) -> Forall (fun s => (s < two32)%N) (map e_seq (r_evs st)) ->
+    (r_last st < two32)%N -> in_window (map e_seq (r_evs st)) -> op_in_window msg mseq st o ->
+    exists c' ps',
+      run_op msg mseq mtype o (abs_state msg st maxsz timeout 0 out) = Some (c', op_ret msg o) /\
+      RepSt msg c' (fst (fst (rstep msg mseq mtype maxsz timeout st o))) maxsz timeout ps' /\
+      c_out c' = out ++ cb_out msg (snd (fst (rstep msg mseq mtype maxsz timeout st o)))
+                                   (snd (rstep msg mseq mtype maxsz timeout st o)) /\
+      c_closed c' = op_closed msg o.
+  Proof. exact (rstep_from_source_abs msg mseq mtype). Qed.
+
+  (* ... = the order-generic [rstep_by seq_less] whenever Less is transitive on the numbers present *)
+  Theorem C15_reassembler_from_source_rstep_by : forall (c : cst msg) st maxsz timeout ps o,
+    RepSt msg c st maxsz timeout ps -> c_closed c = 0%Z ->
+    sorted_by seq_less (map e_seq (r_evs st)) -> op_order_ok msg mseq st o ->
+    exists c' ps',
+      run_op msg mseq mtype o c = Some (c', op_ret msg o) /\
+      RepSt msg c' (fst (fst (rstep_by msg mseq mtype seq_less maxsz timeout st o))) maxsz timeout ps' /\
+      c_out c' = c_out c ++ cb_out msg (snd (fst (rstep_by msg mseq mtype seq_less maxsz timeout st o)))
+                                       (snd (rstep_by msg mseq mtype seq_less maxsz timeout st o)) /\
+      c_closed c' = op_closed msg o.
+  Proof. exact (rstep_by_from_source msg mseq mtype). Qed.
+
+  (* whole histories from NewReassembler on, closed by Close: the groups ReassemblyComplete receives are [groups_of],
+     the list Props/C15.v's grouping theorems describe, for every history whose numbers lie in one window *)
+  Theorem C15_reassembler_from_source_groups : forall S maxsz timeout ops,
+    in_window S -> ops_in msg mseq S ops ->
+    exists c1 c2,
+      run_ops msg mseq mtype ops (cinit msg (Z.of_nat maxsz) timeout) = Some c1 /\
+      close msg mseq mtype gen_reassembler 0 c1 = Some (c2, [VNil]) /\
+      groups_out msg (c_out c2) = groups_of msg mseq mtype maxsz timeout ops.
+  Proof. exact (groups_from_source_in_window msg mseq mtype). Qed.
+
+  (* ... and [groups_of_by seq_less] for every history whose numbers lie in a set on which Less is transitive *)
+  Theorem C15_reassembler_from_source_groups_by : forall S maxsz timeout ops,
+    less_trans_on S -> ops_in msg mseq S ops ->
+    exists c1 c2,
+      run_ops msg mseq mtype ops (cinit msg (Z.of_nat maxsz) timeout) = Some c1 /\
+      close msg mseq mtype gen_reassembler 0 c1 = Some (c2, [VNil]) /\
+      groups_out msg (c_out c2) = groups_of_by msg mseq mtype seq_less maxsz timeout ops.
+  Proof. exact (groups_from_source msg mseq mtype). Qed.
+
+  (* the record-type tests of Put and Add, with the auparse constants the translator resolved, are the model's *)
+  Theorem C15_reassembler_from_source_is_eoe : forall call (c : cst msg) en m,
+    get "msg" en = Some (VMsg (Some m)) ->
+    eval msg mseq mtype call put_eoe_test c en = Some (c, VBool (is_eoe (mtype m))).
+  Proof. exact (is_eoe_from_source msg mseq mtype). Qed.
+
+  Theorem C15_reassembler_from_source_completes : forall call (c : cst msg) en m,
+    get "msg" en = Some (VMsg (Some m)) ->
+    eval msg mseq mtype call add_complete_test c en = Some (c, VBool (completes (mtype m))).
+  Proof. exact (completes_from_source msg mseq mtype). Qed.
+
+  (* Maintain after Close returns errReassemblerClosed and delivers nothing *)
+  Theorem C15_reassembler_from_source_maintain_after_close : forall (c : cst msg) now,
+    c_closed c = 1%Z ->
+    maintain msg mseq mtype gen_reassembler now c = Some (with_now msg now c, [VErr (Some "errReassemblerClosed")]).
+  Proof. exact (maintain_after_close msg mseq mtype). Qed.
+
+  (* Close twice delivers once: the first flushes everything in order, a second Close (and a Maintain) only return the error *)
+  Theorem C15_reassembler_from_source_close_twice : forall (c : cst msg) st maxsz timeout ps now now',
+    RepSt msg c st maxsz timeout ps -> c_closed c = 0%Z ->
+    exists c',
+      close msg mseq mtype gen_reassembler now c = Some (c', [VNil]) /\
+      c_out c' = c_out c ++ cb_out msg (r_evs st) (lost_of msg (r_last st) (r_evs st)) /\
+      close msg mseq mtype gen_reassembler now' c' = Some (with_now msg now' c', [VErr (Some "errReassemblerClosed")]) /\
+      maintain msg mseq mtype gen_reassembler now' c' = Some (with_now msg now' c', [VErr (Some "errReassemblerClosed")]) /\
+      c_out (with_now msg now' c') = c_out c'.
+  Proof. exact (close_twice msg mseq mtype). Qed.
+
+  (* PushMessage(nil) does nothing *)
+  Theorem C15_reassembler_from_source_push_nil : forall (c : cst msg) now,
+    push_message msg mseq mtype gen_reassembler now None c = Some (with_now msg now c, []).
+  Proof. exact (push_nil_from_source msg mseq mtype). Qed.
+
+  (* NEW coverage — a roll-over: records numbered 2^32-2, 2^32-1, 0, 1 arriving in that order and all in flight are
+     handed to ReassemblyComplete in THAT order by the generated program (Less treats 0 as greater than 2^32-1); the
+     plain-order model would deliver 0 and 1 first, so it does not cover this history *)
+  Theorem C15_reassembler_from_source_rollover : forall (m1 m2 m3 m4 : msg),
+    mseq m1 = 4294967294%N -> mseq m2 = 4294967295%N -> mseq m3 = 0%N -> mseq m4 = 1%N ->
+    (forall m, In m [m1; m2; m3; m4] -> is_eoe (mtype m) = false /\ completes (mtype m) = false) ->
+    forall maxsz timeout t1 t2 t3 t4, 4 <= maxsz ->
+    t4 <= t1 + timeout /\ t3 <= t1 + timeout /\ t2 <= t1 + timeout /\ t4 <= t2 + timeout /\ t3 <= t2 + timeout /\ t4 <= t3 + timeout ->
+    (exists c1 c2,
+       run_ops msg mseq mtype (rollover_ops msg m1 m2 m3 m4 t1 t2 t3 t4) (cinit msg (Z.of_nat maxsz) timeout) = Some c1 /\
+       close msg mseq mtype gen_reassembler 0 c1 = Some (c2, [VNil]) /\
+       groups_out msg (c_out c2) = [[m1]; [m2]; [m3]; [m4]]) /\
+    groups_of msg mseq mtype maxsz timeout (rollover_ops msg m1 m2 m3 m4 t1 t2 t3 t4) = [[m3]; [m4]; [m1]; [m2]].
+  Proof.
+    intros m1 m2 m3 m4 q1 q2 q3 q4 ord maxsz timeout t1 t2 t3 t4 room noexp. split.
+    - exact (rollover_from_source msg mseq mtype m1 m2 m3 m4 q1 q2 q3 q4 ord maxsz timeout t1 t2 t3 t4 room noexp).
+    - exact (rollover_plain_model_differs msg mseq mtype m1 m2 m3 m4 q1 q2 q3 q4 ord maxsz timeout t1 t2 t3 t4 room noexp).
+  Qed.
+End C15_reassembler_from_source.
+
+(* the ordering: Less is the plain order inside a window; beyond it the comparison is reversed; a strict total order on
+   a window and on two clusters; not transitive in general *)
+Theorem C15_reassembler_from_source_less_is_lt_in_window :
+  forall a b, (seq_dist a b <= max_sort_range)%N -> seq_less a b = (a <? b)%N.
+Proof. exact less_is_lt_in_window. Qed.
+
+Theorem C15_reassembler_from_source_less_beyond_window :
+  forall a b, (max_sort_range < seq_dist a b)%N -> seq_less a b = (b <? a)%N.
+Proof. exact less_is_gt_beyond_window. Qed.
+
+Theorem C15_reassembler_from_source_less_trans_in_window : forall l, in_window l -> less_trans_on l.
+Proof. exact less_trans_in_window. Qed.
+
+Theorem C15_reassembler_from_source_less_trans_two_clusters : forall l, two_clusters l -> less_trans_on l.
+Proof. exact less_trans_two_clusters. Qed.
+
+Theorem C15_reassembler_from_source_less_not_transitive :
+  seq_less 0 16777215 = true /\ seq_less 16777215 33554430 = true /\ seq_less 0 33554430 = false /\
+  seq_less 33554430 0 = true.
+Proof. exact less_not_transitive. Qed.
+
+(* the generated constants are the model's; Put, CleanUp and Clear hold the list's mutex from first statement to return;
+   Sort is sort.Sort with the usual Len and Swap *)
+Theorem C15_reassembler_from_source_constants :
+  gen_AUDIT_EOE = Z.of_nat T_EOE /\ gen_AUDIT_PROCTITLE = Z.of_nat T_PROCTITLE /\
+  gen_AUDIT_LAST_DAEMON = Z.of_nat T_LAST_DAEMON /\ gen_AUDIT_ANOM_LOGIN_FAILURES = Z.of_nat T_ANOM_LOGIN_FAILURES /\
+  gen_maxSortRange = Z.of_N max_sort_range.
+Proof. exact constants_from_source. Qed.
+
+Theorem C15_reassembler_from_source_locks :
+  Forall (fun f => match rf_body f with
+                   | BCons (SLock (XVar l)) (BCons (SDeferUnlock (XVar l')) _) => rf_recv f = Some l /\ l' = l
+                   | _ => False
+                   end) [gen_Put; gen_CleanUp; gen_Clear] /\
+  gen_sort_iface = {| si_sort_is_sort_Sort := true; si_len_is_len := true; si_swap_is_swap := true |}.
+Proof. exact list_methods_locked. Qed.
+
+Print Assumptions C15_reassembler_from_source_less.
+Print Assumptions C15_reassembler_from_source_put.
+Print Assumptions C15_reassembler_from_source_put_by.
+Print Assumptions C15_reassembler_from_source_cleanup.
+Print Assumptions C15_reassembler_from_source_clear.
+Print Assumptions C15_reassembler_from_source_rstep.
+Print Assumptions C15_reassembler_from_source_rstep_abs.
+Print Assumptions C15_reassembler_from_source_rstep_by.
+Print Assumptions C15_reassembler_from_source_groups.
+Print Assumptions C15_reassembler_from_source_groups_by.
+Print Assumptions C15_reassembler_from_source_is_eoe.
+Print Assumptions C15_reassembler_from_source_completes.
+Print Assumptions C15_reassembler_from_source_maintain_after_close.
+Print Assumptions C15_reassembler_from_source_close_twice.
+Print Assumptions C15_reassembler_from_source_push_nil.
+Print Assumptions C15_reassembler_from_source_rollover.
+Print Assumptions C15_reassembler_from_source_less_is_lt_in_window.
+Print Assumptions C15_reassembler_from_source_less_beyond_window.
+Print Assumptions C15_reassembler_from_source_less_trans_in_window.
+Print Assumptions C15_reassembler_from_source_less_trans_two_clusters.
+Print Assumptions C15_reassembler_from_source_less_not_transitive.
+Print Assumptions C15_reassembler_from_source_constants.
+Print Assumptions C15_reassembler_from_source_locks.
